@@ -56,6 +56,8 @@ type kpSide struct {
 func runKeyPhase(w *bufio.Writer, seed uint64, n int, _ []string) {
 	r := u.NewRng(seed)
 	dist := map[string]int{}
+	kuCheck(w, r.Fork())
+	kpScriptedDropThenLocalUpdate(w, r.Fork())
 	for i := 0; i < n; i++ {
 		kpCase(w, r.Fork(), dist, i)
 	}
